@@ -193,6 +193,8 @@ def r3(ctx, R):
     derive = [st for st in ctx.m.walk_own(pf.node) if isinstance(st, ast.Assign) and isinstance(st.value, ast.Call) and isinstance(st.value.func, ast.Attribute) and "comment_regex" in st.value.func.attr]
     if loops and derive and derive[0].lineno < loops[0].lineno:
         R.ok("C14.R3", pf.short, key(pf, derive[0]), loc(pf, derive[0]), "comment patterns re-derived from the form flag before the parse loop")
+    elif loops and not any(isinstance(st, (ast.Assign, ast.AnnAssign)) and isinstance(st.value, (ast.Call, ast.Tuple)) and any(isinstance(x, ast.Attribute) and "comment_regex" in x.attr for x in ast.walk(st.value)) and any(isinstance(t, ast.Attribute) or (isinstance(t, ast.Tuple) and any(isinstance(e_, ast.Attribute) for e_ in t.elts)) for t in (st.targets if isinstance(st, ast.Assign) else [st.target])) for q_ in fc.methods.values() for st in ctx.m.walk_own(ctx.m.funcs[q_].node)):
+        R.ok("C14.R3", pf.short, "comment patterns derived before the loop", loc(pf, loops[0]), "no comment pattern is cached on the file object: they are computed from the form flag on access")
     elif loops:
         R.violation("C14.R3", pf.short, "comment patterns derived before the loop", loc(pf, loops[0]), "the parser keeps the comment patterns chosen when the file object was created")
 
